@@ -438,6 +438,34 @@ class _NormalForm(ast.NodeTransformer):
             return None
         return [ast.fix_missing_locations(_Rename(names).visit(x)) for x in new]
 
+    def _demap(self, st: ast.For) -> ast.For:
+        """`for x in map(F, xs): B`  ->  `for x in xs: x = F(x); B`  (F a `str.method` or a plain function name), and the same for a
+        one-generator generator expression `for x in (E(p) for p in xs)`: the per-element transformation becomes the first statement."""
+        it = st.iter
+        if not isinstance(st.target, ast.Name):
+            return st
+        x = st.target.id
+        first: T.Optional[ast.stmt] = None
+        src: T.Optional[ast.AST] = None
+        if isinstance(it, ast.Call) and norm(it.func) == 'map' and len(it.args) == 2 and not it.keywords:
+            f = it.args[0]
+            if isinstance(f, ast.Attribute) and norm(f.value) in ('str', 'bytes'):
+                val: ast.AST = ast.Call(func=ast.Attribute(value=ast.Name(id=x, ctx=ast.Load()), attr=f.attr, ctx=ast.Load()), args=[], keywords=[])
+            elif isinstance(f, ast.Name):
+                val = ast.Call(func=f, args=[ast.Name(id=x, ctx=ast.Load())], keywords=[])
+            else:
+                return st
+            first, src = ast.Assign(targets=[ast.Name(id=x, ctx=ast.Store())], value=val), it.args[1]
+        elif isinstance(it, (ast.GeneratorExp, ast.ListComp)) and len(it.generators) == 1 and not it.generators[0].ifs and isinstance(it.generators[0].target, ast.Name) \
+                and not it.generators[0].is_async:
+            g = it.generators[0]
+            val = _Rename({g.target.id: ast.Name(id=x, ctx=ast.Load())}).visit(copy.deepcopy(it.elt))
+            first, src = ast.Assign(targets=[ast.Name(id=x, ctx=ast.Store())], value=val), g.iter
+        if first is None or src is None:
+            return st
+        new = ast.For(target=st.target, iter=src, body=[ast.copy_location(first, st)] + list(st.body), orelse=st.orelse, type_comment=None)
+        return ast.fix_missing_locations(ast.copy_location(new, st))
+
     def _inline_closure(self, st: ast.stmt) -> T.Optional[T.List[ast.stmt]]:
         """`f()` / `x = f()` where f is a parameterless straight-line closure nested in this function (typically with `nonlocal`): its
         statements in place, `return E` becoming `x = E`.  The closure shares the variables of the function, so nothing is renamed."""
@@ -546,6 +574,8 @@ class _NormalForm(ast.NodeTransformer):
     def _block(self, body: T.List[ast.stmt]) -> T.List[ast.stmt]:
         expanded: T.List[ast.stmt] = []
         for st in body:
+            if isinstance(st, ast.For):
+                st = self._demap(st)
             rep_ = self._unroll(st) if isinstance(st, ast.For) else (self._inline_closure(st) or self._dispatch_methods(st) or self._inline_tail_call(st) or self._inline_returns(st))
             if rep_ is not None:
                 self.depth += 1
@@ -1635,8 +1665,58 @@ def _comparator_dispatch(ctx: RuleCtx, mod: Module, core: str) -> None:
                         f'"{want} is the int" (e.g. 1.0.0-1 {dict(lt="<", le="<=", gt=">", ge=">=")[op]} 1.0.0-alpha)', r.path.events[-1].node)
 
 
+COMPLEMENT = {'lt': 'ge', 'ge': 'lt', 'gt': 'le', 'le': 'gt'}
+
+
+def _prepare_dunders(ctx: RuleCtx, mod: Module, cls: str) -> None:
+    """Normal form of the four ordering dunders before the shared core reader looks at them (the module index of this run is
+    completed / rewritten in memory, nothing is written anywhere):
+    * a dunder made by a class-body factory (`__lt__ = _ordering(operator.lt)`, the factory returning a nested def) is materialised
+      as that nested def with the factory's parameters bound by signature;
+    * a dunder derived from the opposite comparison (`return not self.core(x, operator.gt)` for <=) is rewritten to the direct call
+      when the operator is the exact complement (total order: <= is not >, >= is not <, < is not >=, > is not <=); any other
+      operator under the negation is a finding."""
+    k = mod.cls(cls)
+    factories = {x.name: x for x in k.body if isinstance(x, ast.FunctionDef)}
+    for st in k.body:
+        if isinstance(st, ast.Assign) and len(st.targets) == 1 and isinstance(st.targets[0], ast.Name) and st.targets[0].id in cmpcore.DUNDER_OP \
+                and isinstance(st.value, ast.Call) and isinstance(st.value.func, ast.Name) and st.value.func.id in factories:
+            fac = factories[st.value.func.id]
+            body = [x for x in fac.body if not (isinstance(x, ast.Expr) and isinstance(x.value, ast.Constant))]
+            if len(body) == 2 and isinstance(body[0], ast.FunctionDef) and isinstance(body[1], ast.Return) and norm(body[1].value) == body[0].name:
+                try:
+                    bound = bind_call(st.value, fac)
+                except Undecided:
+                    continue
+                new = _Rename(bound).visit(copy.deepcopy(body[0]))
+                new.name = st.targets[0].id
+                mod._funcs[f'{cls}.{new.name}'] = ast.fix_missing_locations(new)     # type: ignore[attr-defined]
+    meths = mod.methods(cls)
+    for d, op in cmpcore.DUNDER_OP.items():
+        fn = meths.get(d)
+        if fn is None:
+            continue
+        nots = [r for r in ast.walk(fn) if isinstance(r, ast.Return) and isinstance(r.value, ast.UnaryOp) and isinstance(r.value.op, ast.Not) and isinstance(r.value.operand, ast.Call)]
+        if not nots:
+            continue
+        new_fn = copy.deepcopy(fn)
+        for r in [r for r in ast.walk(new_fn) if isinstance(r, ast.Return) and isinstance(r.value, ast.UnaryOp) and isinstance(r.value.op, ast.Not) and isinstance(r.value.operand, ast.Call)]:
+            call = r.value.operand     # type: ignore[union-attr]
+            ops = [a for a in call.args if (attr_chain(a) or '').startswith('operator.')]
+            if len(ops) != 1:
+                raise Undecided(f'{cls}.{d}: negated result `{short(r.value)}` without exactly one operator.* argument')
+            used = attr_chain(ops[0]).split('.')[1]     # type: ignore[union-attr]
+            ctx.require(used == COMPLEMENT[op], f'{cls}.{d}: derived as `not {COMPLEMENT[op]}` (the exact complement in a total order)', mod, f'{cls}.{d}', r.value,     # type: ignore[arg-type]
+                        f'{d} returns `{short(r.value)}`: the negation of operator.{used} is operator.{COMPLEMENT.get(used, "?")}, not operator.{op} '
+                        f'(e.g. `not >=` is the strict `<`, so a <= a would be False); the complement of operator.{op} is operator.{COMPLEMENT[op]}', r)
+            call.args = [ast.Attribute(value=ast.Name(id='operator', ctx=ast.Load()), attr=op, ctx=ast.Load()) if a is ops[0] else a for a in call.args]
+            r.value = call
+        mod._funcs[f'{cls}.{d}'] = ast.fix_missing_locations(new_fn)     # type: ignore[attr-defined]
+
+
 def r2_core(ctx: RuleCtx) -> None:
     mod = ctx.repo.module(VERSION)
+    _prepare_dunders(ctx, mod, 'SemVer')
     core = cmpcore.one_core(ctx, mod, 'SemVer')
     if core is None:
         return
@@ -2596,6 +2676,8 @@ def _trace(fn: ast.FunctionDef, p: Path, expect: _Expect) -> T.Optional[T.Tuple[
                 tr.append(('testin', ms, int(a.args[0][3:]), val))
             elif a.kind == 'is' and a.args[0].startswith('looktok') and member(expr_of(a.args[1])):
                 tr.append(('look', member(expr_of(a.args[1])), int(a.args[0][7:]), val))
+            elif a.kind == 'is' and a.args[0].startswith('look') and a.args[0].endswith('[0]') and a.args[0][4:-3].isdigit() and member(expr_of(a.args[1])):
+                tr.append(('look', member(expr_of(a.args[1])), int(a.args[0][4:-3]), val))
             elif a.kind == 'cmp' and a.args[0] == 'eq' and any(x.startswith('look') and x.endswith('[0]') for x in a.args[1:]):
                 lk = [x for x in a.args[1:] if x.startswith('look')][0]
                 other = [x for x in a.args[1:] if x != lk][0]
